@@ -141,6 +141,8 @@ def unary_ops(subsample=True):
             L.append(('rename_partial', ax, inpl))
             L.append(('rename_swap', ax, inpl))
             L.append(('rename_rot', ax, inpl))
+            L.append(('rename_collide', ax, inpl))
+            L.append(('filter_rev2', ax, inpl))
         L.append(('sort', ax))
         L.append(('rev', ax))
         L.append(('rot', ax))
@@ -151,7 +153,7 @@ def unary_ops(subsample=True):
         L.append(('pa', inpl))
         L.append(('remove_empty', 'whole', inpl))
     L += [('transpose',), ('copy',), ('head', 2, 2), ('head', 1, 1), ('nnz',), ('col',), ('row',),
-          ('iter',), ('eq',), ('del_md_whole',)]
+          ('iter',), ('eq',), ('del_md_whole',), ('poke_zero',), ('iter_interleaved',)]
     return L
 
 
@@ -275,8 +277,24 @@ def apply(op, t, m, strict=True):
         try:
             mm = m.update_ids(ax, mp, False)
         except ModelRefuse:
-            raise Refuse()
+            if strict:
+                raise Refuse()
+            mm = None       # follow mode: let the implementation refuse; the state it leaves is judged
         return Res(t.update_ids(dict(mp), axis=ax, strict=False, inplace=op[2]), mm, op[2])
+    if n == 'rename_collide':
+        # a partial renaming onto a retained id: must be refused (and, in place, leave the table as it was)
+        ax = op[1]
+        ids = m.ids(ax)
+        if len(ids) < 2 or strict:
+            raise Refuse()
+        return Res(t.update_ids({ids[0]: ids[1]}, axis=ax, strict=False, inplace=op[2]), None, op[2])
+    if n == 'filter_rev2':
+        ax, inpl = op[1], op[2]
+        ids = m.ids(ax)
+        if len(ids) < 2:
+            raise Refuse()
+        want = [ids[-1], ids[0]]            # an explicit list that is not in table order
+        return Res(t.filter(list(want), axis=ax, inplace=inpl), X(lambda: m.filter_ids(ax, want)), inpl)
     if n in ('rename_swap', 'rename_rot'):
         ax = op[1]
         ids = m.ids(ax)
@@ -340,6 +358,21 @@ def apply(op, t, m, strict=True):
         for _ in t.iter(axis='sample', dense=False):
             pass
         for _ in t.iter_pairwise(axis='observation'):
+            pass
+        return Res(t, m, True)
+    if n == 'poke_zero':
+        # the caller overwrites an existing entry of the exposed matrix with 0: the zero stays stored
+        cells = [(i, j) for i in range(len(m.o)) for j in range(len(m.c)) if m.m[i][j] != 0]
+        if not cells:
+            raise Refuse()
+        i, j = cells[len(cells) // 2]
+        t.matrix_data[i, j] = 0.0
+        mm = m.copy()
+        mm.m[i][j] = 0.0
+        return Res(t, mm, True)
+    if n == 'iter_interleaved':
+        # two live iterators over different axes, advanced in lock-step
+        for _ in zip(t.iter(axis='observation'), t.iter(axis='sample')):
             pass
         return Res(t, m, True)
     if n == 'eq':
